@@ -86,11 +86,14 @@ void vf_error_exit(const char* msg) { fprintf(stderr, "VF-MJU-ERROR %s\n", msg ?
 static int vf_nwarn = 0; static char vf_lastwarn[1024];
 void vf_warning_count(const char* msg) { vf_nwarn++; if (msg) { strncpy(vf_lastwarn, msg, 1023); } }
 int vf_get_nwarn(void) { return vf_nwarn; }
+static char vf_calls[8192]; static int vf_ncalls = 0;
+void vf_log_call(const char* name) { vf_ncalls++; if (strlen(vf_calls) + strlen(name) + 2 < sizeof(vf_calls)) { strcat(vf_calls, name); strcat(vf_calls, ";"); } }
+const char* vf_get_calls(void) { return vf_calls; }
 const char* vf_get_lastwarn(void) { return vf_lastwarn; }
 '''
 
 
-def native_lib(primary, support=(), flags=(), extra_c='', name=None, expose_static=True, sanitize=False):
+def native_lib(primary, support=(), flags=(), extra_c='', name=None, expose_static=True, sanitize=False, redirect=()):
     """Build a shared library from real TUs for concrete replay / translator validation.
 
     primary: TUs whose static functions are made external (by rewriting `define internal` in their own IR).
@@ -103,7 +106,7 @@ def native_lib(primary, support=(), flags=(), extra_c='', name=None, expose_stat
     cflags = ['-O0', '-fPIC', '-g0', '-Wno-everything', '-ffp-contract=off'] + (['-fsanitize=address'] if sanitize else [])
     for tu in primary + support:
         keys.append(preprocessed_hash(tu, list(flags)))
-    h = hashlib.sha256(('|'.join(keys) + extra_c + repr(flags) + repr(primary) + repr(sanitize) + 'v2' + STUB_PRELUDE).encode()).hexdigest()[:24]
+    h = hashlib.sha256(('|'.join(keys) + extra_c + repr(flags) + repr(primary) + repr(sanitize) + repr(sorted(redirect)) + 'v3' + STUB_PRELUDE).encode()).hexdigest()[:24]
     so = os.path.join(WORK, 'lib_%s_%s.so' % (name or 'native', h))
     if os.path.exists(so):
         return so
@@ -113,10 +116,11 @@ def native_lib(primary, support=(), flags=(), extra_c='', name=None, expose_stat
             src = _src(tu)
             ll = os.path.join(tmpd, os.path.basename(src) + '.ll')
             _run(_cc(src) + ['-S', '-emit-llvm', '-O0', '-fPIC', '-ffp-contract=off', '-Wno-everything'] + (['-fsanitize=address'] if sanitize else []) + INCLUDES + list(flags) + [src, '-o', ll])
+            txt = open(ll).read()
             if expose_static:
-                txt = open(ll).read()
                 txt = re.sub(r'^define internal ', 'define ', txt, flags=re.M)
-                open(ll, 'w').write(txt)
+            txt = redirect_calls(txt, redirect)
+            open(ll, 'w').write(txt)
             o = ll + '.o'
             _run([CLANG, '-c'] + cflags + [ll, '-o', o])
             objs.append(o)
@@ -143,6 +147,36 @@ def native_lib(primary, support=(), flags=(), extra_c='', name=None, expose_stat
     finally:
         shutil.rmtree(tmpd, ignore_errors=True)
     return so
+
+
+def redirect_calls(txt, names):
+    """Rewrite call sites of the given functions (defined or declared in this TU) to @vfstub_<name>, which the
+    harness defines in extra_c as a logging stub. The definition itself is left in place."""
+    decls = []
+    for n in names:
+        m = re.search(r'^(?:define|declare)\s+(.*?)@%s\((.*?)\)[^\n]*$' % re.escape(n), txt, re.M)
+        if not m: continue
+        ret = m.group(1)
+        ret = re.sub(r'\b(dso_local|internal|noundef|signext|zeroext|nonnull|noalias|hidden|local_unnamed_addr|unnamed_addr)\b', '', ret).strip()
+        params = []
+        depth = 0; cur = ''
+        for ch in m.group(2):
+            if ch in '([{<': depth += 1
+            if ch in ')]}>': depth -= 1
+            if ch == ',' and depth == 0: params.append(cur); cur = ''
+            else: cur += ch
+        if cur.strip(): params.append(cur)
+        ptys = []
+        for p_ in params:
+            p_ = re.sub(r'%[\w.]+\s*$', '', p_.strip())
+            if p_.strip() == '...': ptys.append('...'); continue
+            p_ = re.sub(r'\b(noundef|signext|zeroext|nonnull|noalias|nocapture|readonly|readnone|writeonly|returned|immarg)\b', '', p_)
+            p_ = re.sub(r'\b(align|dereferenceable|dereferenceable_or_null)\s*\(?\d+\)?', '', p_)
+            ptys.append(p_.strip())
+        decls.append('declare %s @vfstub_%s(%s)' % (ret, n, ', '.join(ptys)))
+        txt = re.sub(r'(\b(?:call|invoke)\b[^\n]*?)@%s\(' % re.escape(n), r'\1@vfstub_%s(' % n, txt)
+    if decls: txt += '\n' + '\n'.join(decls) + '\n'
+    return txt
 
 
 # ----------------------------------------------------------------- struct layout from DWARF
@@ -270,9 +304,10 @@ class Layout:
         return self.field(struct, path)[0]
 
 
-def enum_values(header_rel, prefix):
+def enum_values(prefix, header_rel=None):
     """Parse enum constants with a tiny C program (authoritative: uses the compiler)."""
-    hdr = open(os.path.join(REPO, 'include', header_rel)).read()
+    import glob
+    hdr = ''.join(open(f).read() for f in sorted(glob.glob(os.path.join(REPO, 'include', 'mujoco', '*.h'))))
     names = sorted(set(re.findall(r'\b(%s\w*)\b' % prefix, hdr)))
     names = [n for n in names if re.search(r'^\s*%s\s*(=|,|//|$)' % re.escape(n), hdr, re.M)]
     os.makedirs(WORK, exist_ok=True)
